@@ -4,6 +4,7 @@ package sigrpc
 import (
 	"context"
 	"errors"
+	"github.com/aperturerobotics/bifrost/crypto"
 	"io"
 	"os"
 	"sync"
@@ -342,6 +343,12 @@ func mkMsg(kind string, claim, other int, data []byte, seqno uint64) *signaling.
 	case "other-signer":
 		o, _ := signaling.NewSessionMsg(gen.Key(other), hash.HashType_HashType_BLAKE3, data, seqno)
 		m.SignedMsg.Signature = o.SignedMsg.Signature
+	case "other-signer-with-key":
+		// signed by `other`, claims `claim`, and carries `other`'s public key in the signature object
+		o, _ := signaling.NewSessionMsg(gen.Key(other), hash.HashType_HashType_BLAKE3, data, seqno)
+		m.SignedMsg.Signature = o.SignedMsg.Signature.CloneVT()
+		pk, _ := crypto.MarshalPublicKey(gen.Key(other).GetPublic())
+		m.SignedMsg.Signature.PubKey = pk
 	case "claims-other":
 		// genuinely signed by `other`, and says so: the sender is not who the stream is
 		m, _ = signaling.NewSessionMsg(gen.Key(other), hash.HashType_HashType_BLAKE3, data, seqno)
